@@ -1138,6 +1138,11 @@ func (r *Run) maybeNilSource(v ssa.Value) (kind, desc string, ok bool) {
 		if _, isPtr := f.Type().Underlying().(*types.Pointer); !isPtr {
 			return
 		}
+		// Position of a gqlparser AST node: set by the parser, nil on every node the merger,
+		// the planner or the reconstruction build themselves
+		if f.Name() == "Position" && strings.HasPrefix(namedOf(fa.X.Type()), "github.com/vektah/gqlparser/v2/ast.") {
+			return "P5", "Position of an AST node (nil on nodes built by this module)", true
+		}
 		// JSON-decoded struct field of pointer type declared in the module
 		st, _ := derefType(fa.X.Type()).Underlying().(*types.Struct)
 		if st == nil || f.Pkg() == nil || !strings.HasPrefix(f.Pkg().Path(), modPath) {
